@@ -34,6 +34,8 @@ def program(rng, i, tier):
         return src, [('L%d' % k, ['L%d' % (k - 1)] if k else [], l) for k, l in enumerate(c['layers'])]
     if src == 'c07':
         c = c07.gen_case(rng, i, tier)
+        if c.get('mode') == 'scalar-doc':
+            return src, [('C%dL%d' % (ci, li), ['C%dL%d' % (ci, li - 1)] if li else [], l) for ci, chain in enumerate(c['chains']) for li, l in enumerate(chain)]
         return src, [('L%d' % k, ['L%d' % (k - 1)] if k else [], l) for k, l in enumerate(c['layers'])]
     if src == 'c02':
         c = c02.gen_case(rng, i, tier)
@@ -122,10 +124,18 @@ def special(rng):
     return [('d', [], d)]
 
 
+def _program(rng, i, tier):
+    for _ in range(20):
+        src, prog = program(rng, i, tier)
+        if prog:
+            return src, prog
+    return 'special', special(rng)
+
+
 def gen_case(rng, i, tier):
     from .c08 import bound_repeat
-    src, prog = program(rng, i, tier)
-    osrc, other = program(rng, i + 7919, tier)
+    src, prog = _program(rng, i, tier)
+    osrc, other = _program(rng, i + 7919, tier)
     for _, _, data in list(prog) + list(other):
         bound_repeat(data)
     return {'src': src, 'prog': [list(p) for p in prog], 'other': [list(p) for p in other], 'fmt': rng.choice(['json', 'yaml', 'json-pretty', 'toml', 'json']), 'fresh': i % 8 == 0}
